@@ -10,13 +10,14 @@ EXTENDS Naturals, Sequences, TLC, Json
 
 CONSTANTS Caps, Depth, Nil
 
-VARIABLES n, slot, rd, wr, closedB, nextId, hist
-vars == <<n, slot, rd, wr, closedB, nextId, hist>>
+VARIABLES n, slot, rd, wr, closedB, nextId, hist,
+          beh    \* the finished behaviour as JSON ("" before): read from TLC's state dump
+vars == <<n, slot, rd, wr, closedB, nextId, hist, beh>>
 
 Init ==
   /\ n \in Caps
   /\ slot = [i \in 0..n-1 |-> Nil] /\ rd = 0 /\ wr = 0 /\ closedB = FALSE
-  /\ nextId = 1 /\ hist = <<>>
+  /\ nextId = 1 /\ hist = <<>> /\ beh = ""
 
 Push ==
   /\ IF slot[wr] # Nil THEN UNCHANGED <<slot, wr>>
@@ -43,10 +44,10 @@ Reset ==
   /\ hist' = Append(hist, "reset")
   /\ UNCHANGED <<n, nextId>>
 
-Next == Len(hist) < Depth /\ (Push \/ Pull \/ Close \/ Reset)
+Next ==
+  /\ Len(hist) < Depth
+  /\ (Push \/ Pull \/ Close \/ Reset)
+  /\ beh' = IF Len(hist') = Depth THEN ToJson([cap |-> n, ops |-> hist']) ELSE ""
 Spec == Init /\ [][Next]_vars
 
-\* export: one line per complete behaviour (histories are part of the state, so
-\* every path of length Depth is a distinct state and is printed exactly once)
-Export == Len(hist) = Depth => PrintT(<<"BEH", ToJson([cap |-> n, ops |-> hist])>>)
 =============================================================================
